@@ -176,7 +176,7 @@ func focusedSuffixShapes() []string {
 	var out []string
 	hops := []struct{ kinds [2]string }{{[2]string{"EdgeKind1", "EdgeKind2"}}, {[2]string{"EdgeKind1", "EdgeKind1"}}}
 	for _, h := range hops {
-		for _, rng := range []string{"*1..", "*1..2", "*0..1", "*2"} {
+		for _, rng := range []string{"*1..", "*1..2", "*0..1", "*2", "*2..2", "*2..3"} {
 			for mask := 0; mask < 8; mask++ { // which of m, x, y are bound by an earlier clause
 				var pre []string
 				for i, v := range []string{"m", "x", "y"} {
@@ -238,7 +238,7 @@ func focusedAggregateShapes() []string {
 func focusedAggTraversalShapes() []string {
 	var out []string
 	for _, src := range []string{"(u:NodeKind1)", "(u)", "(u:NodeKind1:NodeKind2)"} {
-		for _, rng := range []string{"*0..", "*0..2", "*1..", "*1..2", "*2..3", "*", "*..2"} {
+		for _, rng := range []string{"*0..", "*0..2", "*1..", "*1..2", "*2..3", "*", "*..2", "*2", "*2..2"} {
 			for _, term := range []string{"(g)", "(g:NodeKind2)", "(g:NodeKind1)"} {
 				for _, tail := range []string{
 					"with u, count(g) as n return u, n order by n desc limit 5",
@@ -408,5 +408,27 @@ func focusedParamMapShapes() []paramQuery {
 	add("match (a $p)-[r $q]->(b) return a, r, b", map[string]any{"p": nodeP[0], "q": relP[0]})
 	add("match (a $p)-[r]->(b $q) return a, r, b", map[string]any{"p": nodeP[0], "q": nodeP[1]})
 	add("match (a $p)-[r]->(b) where b.a = 1 return a, b", map[string]any{"p": nodeP[0]})
+	return out
+}
+
+// focusedExactRangeShapes: an expansion of exact length in each of its spellings (`*n`, `*n..n`) next to the nearest proper range (`*n..m`),
+// alone, with either endpoint bound by an earlier clause, followed by a fixed hop into a bound or a fresh node, as a named path and with a
+// relationship-list variable.
+func focusedExactRangeShapes() []string {
+	var out []string
+	for _, r := range []string{"*1", "*1..1", "*2", "*2..2", "*2..3", "*3", "*3..3"} {
+		out = append(out,
+			"match (n)-["+r+"]->(m) return n, m",
+			"match (n:NodeKind1)-[:EdgeKind1"+r+"]->(m) return n, m",
+			"match (m) match (n)-["+r+"]->(m) return n, m",
+			"match (n) match (n)-["+r+"]->(m) return n, m",
+			"match (m) match (n)-["+r+"]->(m)-[:EdgeKind1]->(x) return n, x",
+			"match (x) match (n)-["+r+"]->(m)-[:EdgeKind1]->(x) return n, m",
+			"match (n)-["+r+"]->(m)-[:EdgeKind2]->(x) return n, x",
+			"match p = (n)-["+r+"]->(m) return p",
+			"match (n)-[r"+r+"]->(m) return r",
+			"match (n)<-["+r+"]-(m) return n, m",
+		)
+	}
 	return out
 }
